@@ -30,16 +30,51 @@ func VerifC19ExporterQueue() {
 		Telemetry: component.TelemetrySettings{MeterProvider: vLedgerProvider{led: led}, TracerProvider: tracenoop.NewTracerProvider()}}, inner)
 	vAssert(err == nil, "queue/obs-queue-created")
 	var failedItems, acceptedItems int64
+	type handed struct {
+		items int64
+		done  Done
+	}
+	var outs []handed
+	var queued []int64
 	K := vParam("offers")
 	for i := 0; i < K; i++ {
-		n := vNondetInt("items")
-		vAssume(n >= 0 && n <= 1<<40)
-		if q.Offer(context.Background(), &vc19QReq{items: n}) != nil {
-			failedItems += int64(n)
-			vReach("enqueue-failed")
-		} else {
-			acceptedItems += int64(n)
+		switch vChoice("op", 3) {
+		case 0:
+			n := vNondetInt("items")
+			vAssume(n >= 0 && n <= 1<<40)
+			if q.Offer(context.Background(), &vc19QReq{items: n}) != nil {
+				failedItems += int64(n)
+				vReach("enqueue-failed")
+			} else if n > 0 { // an empty request is acknowledged without being queued
+				acceptedItems += int64(n)
+				queued = append(queued, int64(n))
+			}
+		case 1: // a consumer takes the oldest queued request (the gauge still counts it until it is done)
+			if len(queued) == 0 {
+				vAssume(false)
+			}
+			_, _, done, ok := inner.Read(context.Background())
+			vAssert(ok, "queue/read-returns-a-queued-request")
+			if !ok {
+				return
+			}
+			outs = append(outs, handed{items: queued[0], done: done})
+			queued = queued[1:]
+		default: // the oldest hand-off completes, successfully or not
+			if len(outs) == 0 {
+				vAssume(false)
+			}
+			var derr error
+			if vChoice("export-fails", 2) == 1 {
+				derr = context.DeadlineExceeded
+			}
+			outs[0].done.OnDone(derr)
+			acceptedItems -= outs[0].items
+			outs = outs[1:]
+			vReach("completed")
 		}
+		led.vCollect()
+		vAssert(led.observed["otelcol_exporter_queue_size"] == acceptedItems, "queue/size-gauge-equals-accepted-unfinished-items-after-every-step")
 	}
 	name := map[pipeline.Signal]string{pipeline.SignalTraces: "otelcol_exporter_enqueue_failed_spans", pipeline.SignalMetrics: "otelcol_exporter_enqueue_failed_metric_points", pipeline.SignalLogs: "otelcol_exporter_enqueue_failed_log_records"}[sig]
 	vAssert(led.sum[name] == failedItems, "queue/enqueue-failed-counts-exactly-the-refused-items-on-its-own-signal")
